@@ -351,6 +351,49 @@ func c05NowAccounting(o *zl.Obj, rep *core.Report) (out [][2]string) {
 	return out
 }
 
+// c05Repeat: "however often it is repeated" — the SAME parsed object is linted twice in a row (fixed map order and
+// clock); both passes must agree on every status and details text, and the exported fields must be what they were.
+// A lint that edits the object, or a cache inside it, changes what the lints running before it see the second time.
+func c05Repeat(st *xstate.State, rep *core.Report) (out [][2]string) {
+	seam.SetMapOrder(1, 0x9e3779b9)
+	seam.SetNow(c05T0)
+	defer seam.SetNow(0)
+	o, err := zl.Parse(st.Seed.Kind, st.DER)
+	if err != nil {
+		return nil
+	}
+	g := lint.GlobalRegistry()
+	before := snapshot(o)
+	r1, p1 := zl.Lint(o, g)
+	after := snapshot(o)
+	r2, p2 := zl.Lint(o, g)
+	if rep != nil {
+		rep.Add("transitions", 2)
+		rep.Inc("validated")
+		rep.Inc("repeat_runs")
+	}
+	if before != after {
+		o2, _ := zl.Parse(st.Seed.Kind, st.DER)
+		f := strings.Join(changedFields(o, o2), "+")
+		out = append(out, [2]string{"C05|object_modified|" + f, "linting changed exported fields of the linted object: " + f})
+	}
+	if p1 != nil || p2 != nil || r1 == nil || r2 == nil {
+		return out
+	}
+	for n, a := range r1.Results {
+		b := r2.Results[n]
+		if a == nil || b == nil {
+			continue
+		}
+		if a.Status != b.Status {
+			out = append(out, [2]string{"C05|" + n + "|repeat|status", fmt.Sprintf("%s: %s the first time the object is linted, %s the second time", n, a.Status, b.Status)})
+		} else if a.Details != b.Details {
+			out = append(out, [2]string{"C05|" + n + "|repeat|details", fmt.Sprintf("%s: details %q the first time the object is linted, %q the second time", n, a.Details, b.Details)})
+		}
+	}
+	return out
+}
+
 func vecOf(rs *zlint.ResultSet) string { return zl.Vector(rs, true) }
 
 func checkC05(ctx *core.Ctx, rep *core.Report) {
@@ -377,6 +420,7 @@ func checkC05(ctx *core.Ctx, rep *core.Report) {
 	}
 	xstate.Explore(ctx, rep, xstate.Options{Seeds: all, Depth: 0}, func(st *xstate.State) {
 		report(st, c05State(st, 64, seedList, rep))
+		report(st, c05Repeat(st, rep))
 		seam.SetMapOrder(1, seedList[0])
 		seam.SetNow(c05T0)
 		report(st, c05NowAccounting(st.Obj, rep))
@@ -389,6 +433,14 @@ func checkC05(ctx *core.Ctx, rep *core.Report) {
 		}
 		report(st, c05State(st, nctl, seedList[:1], rep))
 		rep.Sample(2, map[string]interface{}{"seed": st.Seed.Name, "path": st.Path, "map_starts": nctl})
+	})
+	// read-only + repetition on every list-shape change (delete / duplicate / swap / grow / duplicate-and-modify) of the
+	// (lint, status) cover of the corpus: two lint runs per state instead of nine, so the whole cover is affordable
+	cover := pickSeeds(all, 1<<30)
+	xstate.Explore(ctx, rep, xstate.Options{Seeds: cover, Depth: 1, Only: func(d string) bool {
+		return xstate.Structural(d) || strings.Contains(d, ":dm")
+	}}, func(st *xstate.State) {
+		report(st, c05Repeat(st, rep))
 	})
 }
 
@@ -586,6 +638,7 @@ func replayC05(rp map[string]interface{}) (string, error) {
 	seam.SetMapOrder(1, 0x9e3779b9)
 	seam.SetNow(c05T0)
 	v = append(v, c05NowAccounting(st.Obj, nil)...)
+	v = append(v, c05Repeat(st, nil)...)
 	if len(v) > 0 {
 		return v[0][0] + ": " + v[0][1], nil
 	}
